@@ -75,7 +75,7 @@ def worker(task):
     if res.get('mode') == 'unordered-limit':
         res['replay'] = replay_unordered_limit(task, res)
     else:
-        res['replay'] = tv.replay_sql(task['ddl'], names, res, task['cfg'], ocols, tries=4 if (task['cfg'].startswith('disk') and ocols is not None) else 1, cfgobj=task['cfgobj'])
+        res['replay'] = tv.replay_sql(task['ddl'], names, res, task['cfg'], ocols, tries=4 if (task['cfg'].startswith('disk') and ocols is not None) else 1, cfgobj=task['cfgobj'], single_insert=bool(task.get('use_ranges')))
     # attribution: is the difference explained by rewrites already listed as known findings?
     if task.get('ban'):
         cfg = dict(task['cfgobj'])
@@ -216,8 +216,13 @@ def absorb(report, prop, res):
     report.sample({'sql': res['sql'], 'config': res['cfg'], 'verdict': 'sat', 'db': res['db'], 'class': out, 'replayed': rep['reproduced']}, cap=14)
 
 
-def run(report, prop, K, thorough, n_generated, only=None, include_repo=True, select_sql=None, use_ranges=False, only_cfg=None):
+def run(report, prop, K, thorough, n_generated, only=None, include_repo=True, select_sql=None, use_ranges=False, only_cfg=None, extra_groups=()):
     tasks = []
+    for origin, ddl, qs in extra_groups:
+        qs = [q for q in qs if not only or only in q]
+        report.cov['family_queries'] = report.cov.get('family_queries', 0) + len(qs)
+        if qs:
+            tasks += build_tasks(report, list(ddl), qs, K, thorough, origin, use_ranges, only_cfg)
     gen = corpus.generated(n_generated, seed())
     sqls = [g['sql'] for g in gen if (select_sql is None or select_sql(g['sql']))]
     if only:
